@@ -9,6 +9,7 @@ import (
 	remoteexecution "github.com/bazelbuild/remote-apis/build/bazel/remote/execution/v2"
 	"github.com/buildbarn/bb-storage/pkg/blobstore"
 	"github.com/buildbarn/bb-storage/pkg/blobstore/buffer"
+	"github.com/buildbarn/bb-storage/pkg/blobstore/slicing"
 	"github.com/buildbarn/bb-storage/pkg/digest"
 	"google.golang.org/grpc/codes"
 	"google.golang.org/grpc/status"
@@ -25,9 +26,26 @@ func quiet(bool) {}
 type acStore struct {
 	*backends.Mem
 	mode int // 0 from proto, 1 from byte slice, 2 from reader
+	// gets counts the reads (Get and GetFromComposite) received so far;
+	// beforeRead, if set, runs at the start of every read with the number
+	// of reads received before it (the place where another client's
+	// UpdateActionResult lands between two reads of the same entry).
+	gets       int
+	beforeRead func(n int)
+}
+
+// GetFromComposite serves the entry the way Get does and hands it to the
+// caller's slicer (backends.Mem would serve a CAS buffer).
+func (a *acStore) GetFromComposite(ctx context.Context, parent, child digest.Digest, slicer slicing.BlobSlicer) buffer.Buffer {
+	b, _ := slicer.Slice(a.Get(ctx, parent), child)
+	return b
 }
 
 func (a *acStore) Get(ctx context.Context, d digest.Digest) buffer.Buffer {
+	if a.beforeRead != nil {
+		a.beforeRead(a.gets)
+	}
+	a.gets++
 	data, ok := a.Mem.Peek(d)
 	if !ok {
 		return buffer.NewBufferFromError(status.Errorf(codes.NotFound, "ac: %s not found", d))
@@ -192,6 +210,9 @@ type spy struct {
 	gets     int
 	maxBatch int
 	other    int
+	// beforeCall, if set, runs at the start of every FindMissing / Get with
+	// the number of such calls received before it.
+	beforeCall func(n int)
 }
 
 func newSpy(inner blobstore.BlobAccess) *spy {
@@ -199,6 +220,9 @@ func newSpy(inner blobstore.BlobAccess) *spy {
 }
 
 func (s *spy) FindMissing(ctx context.Context, ds digest.Set) (digest.Set, error) {
+	if s.beforeCall != nil {
+		s.beforeCall(s.finds + s.gets)
+	}
 	s.finds++
 	items := ds.Items()
 	if len(items) > s.maxBatch {
@@ -224,6 +248,9 @@ func (s *spy) FindMissing(ctx context.Context, ds digest.Set) (digest.Set, error
 }
 
 func (s *spy) Get(ctx context.Context, d digest.Digest) buffer.Buffer {
+	if s.beforeCall != nil {
+		s.beforeCall(s.finds + s.gets)
+	}
 	s.gets++
 	s.log.Add(backends.Call{Backend: "cas", Op: "Get", Digests: []digest.Digest{d}})
 	b := s.BlobAccess.Get(ctx, d)
